@@ -583,7 +583,12 @@ class Binding(object):
                     tasks = {}
                     futures = []
                     for item in value:
-                        key = repr(item)
+                        # (objects are told apart by what they stand for: a lazily filled mapping prints as empty)
+                        try:
+                            o = binding.obj_of(item)
+                            key = "object:%s:%s" % (o.type, o.oid)
+                        except Exception:
+                            key = repr(item)
                         if key not in tasks:
                             # (string items may come back as exception *instances*: values, never raised)
                             tasks[key] = info.runtime.submit(
